@@ -204,11 +204,23 @@ func VF_C04_Observer(prog, c int) {
 		}
 	}
 	vf.Go(func() {
+		vf.Pause()
 		n := q.GetSize()
 		vf.Assert("size-within-capacity", vf.And(n >= 0, n <= c))
 		e := q.IsEmpty()
 		_ = e
+		ob := vf.Begin()
 		arr := q.AsArray()
+		oe := vf.End()
+		vf.Put("obs.inv", ob)
+		vf.Put("obs.ret", oe)
+		for _, v := range h.values {
+			has := 0
+			for _, x := range arr {
+				has = vf.IteInt(x == v, 1, has)
+			}
+			vf.Put("obs.has."+itoa(v), has)
+		}
 		// only values that have been added, each at most once, and for one producer in FIFO order
 		for i, x := range arr {
 			known := false
@@ -227,6 +239,19 @@ func VF_C04_Observer(prog, c int) {
 	vf.TraceStart()
 	vf.WaitAll()
 	checkFIFO(h, true)
+	// the array view is a FIFO snapshot: if it still shows a, then every b that was added after a (a's add
+	// returned before b's began) and whose add had returned before the view was asked for is shown too -
+	// b cannot have been claimed while a is still there
+	for _, a := range h.values {
+		for _, b := range h.values {
+			if a == b {
+				continue
+			}
+			aFirst := vf.Get("add.ret."+itoa(a)) < vf.Get("add.inv."+itoa(b))
+			bAdded := vf.Get("add.ret."+itoa(b)) < vf.Get("obs.inv")
+			vf.Assert("array-view-is-a-fifo-snapshot", vf.Implies(vf.And(vf.And(aFirst, bAdded), vf.Get("obs.has."+itoa(a)) == 1), vf.Get("obs.has."+itoa(b)) == 1))
+		}
+	}
 	vf.Reach("end")
 }
 
@@ -269,6 +294,7 @@ func VF_C04_SizeBound(c, _ int) {
 	vf.Go(producer(q, 0, c+1, nil))
 	vf.Go(consumer(q, 0, 1, false))
 	vf.Go(func() {
+		vf.Pause()
 		n := q.GetSize()
 		vf.Assert("size-within-capacity", vf.And(n >= 0, n <= c))
 	})
